@@ -303,7 +303,10 @@ def check(prop, tier, seed):
                         % (o['unit'], o['obligation'][:140], ','.join(o['tags']), prop))
     # vacuity
     canaries = []
-    canary_units = cfg['units'] if tier == 'thorough' else cfg['units'][:1] if cfg.get('canary_quick', True) else []
+    # quick tier: the first unit of the property, plus every small stand-alone unit (their canary runs take a few seconds)
+    SMALL = {'pdf', 'fmv', 'etr', 'conv', 'agg', 'fx'}
+    canary_units = (cfg['units'] if tier == 'thorough' else
+                    [u for k, u in enumerate(cfg['units']) if k == 0 or u in SMALL] if cfg.get('canary_quick', True) else [])
     if os.environ.get('VERIF_NO_CANARY'):
         canary_units = []
     for ur in units:
